@@ -117,6 +117,7 @@ var (
 	hmu      sync.Mutex
 	invoked  = map[string][]seen{} // by X-Id
 	wantHdrs = map[string][]string{}
+	recentKeys []string
 )
 
 func replyBody(id string) string { return "reply-for-" + id + "-" + strings.Repeat("z", len(id)%7) }
@@ -206,8 +207,19 @@ func httpExchange(w *world, k int) {
 			body = ""
 		}
 	}
+	// also ask for headers that earlier requests carried but this one does not
 	hmu.Lock()
-	wantHdrs[id] = keys
+	var absent []string
+	for _, old := range recentKeys {
+		if _, sent := hdrs[old]; !sent {
+			absent = append(absent, old)
+		}
+	}
+	wantHdrs[id] = append(append([]string(nil), keys...), absent...)
+	recentKeys = append(recentKeys, keys...)
+	if len(recentKeys) > 24 {
+		recentKeys = recentKeys[len(recentKeys)-24:]
+	}
 	hmu.Unlock()
 	rep := map[string]interface{}{"k": k, "method": method, "path": path, "registered": registered, "headers": hdrs, "body_len": len(body)}
 	var result string
@@ -270,6 +282,13 @@ func httpExchange(w *world, k int) {
 			break
 		}
 	}
+	for _, key := range absent {
+		if c.headers[key] != "" {
+			run.Violation("C20/http/header-not-sent", fmt.Sprintf("header %s was not part of this request but the handler saw %q (it belonged to an earlier request)", key, c.headers[key]), rep)
+			break
+		}
+	}
+	run.Count("absent_headers_checked", int64(len(absent)))
 	if c.body != body {
 		key := "C20/http/request-body"
 		if c.body == "\r\n"+body {
